@@ -106,6 +106,8 @@ func NewWorld(conf *Conf, rc vrt.Config) *World {
 			w.Outer = d
 			_ = os.WriteFile(filepath.Join(d, "sentinel.txt"), []byte("do not touch"), 0o644)
 			_ = os.MkdirAll(filepath.Join(d, "sibling", "blobs", "sha256"), 0o755)
+			// the sibling layout holds one blob ("layer-2"): a mount source outside the root would find it
+			_ = os.WriteFile(filepath.Join(d, "sibling", "blobs", "sha256", "6bdb18f83935f1d97220ee8035e6ccd7e764c32102587be4488f940f943ebda6"), []byte("layer-2"), 0o644)
 			_ = os.WriteFile(filepath.Join(d, "sibling", "index.json"), []byte(`{"schemaVersion":2,"manifests":[]}`), 0o644)
 			_ = os.WriteFile(filepath.Join(d, "sibling", "oci-layout"), []byte(`{"imageLayoutVersion":"1.0.0"}`), 0o644)
 			_ = os.WriteFile(filepath.Join(d, "index.json"), []byte(`{"schemaVersion":2,"manifests":[]}`), 0o644)
